@@ -30,6 +30,13 @@ Vocabulary (all transparent, see the `example`s):
 * `Final fr temps c' s'` / `Result s0 s' c'` – after `ret`: callee-saved registers and `rsp` restored, trace,
   environment and tape (relative to the pointer) those of `c'`.
 * `Good K`                            – hypotheses on the program, see there.
+* `Bnd s` / `NoOOM K s`               – (bounds-checked code only) the tape allocation stays below 2^40 cells in
+  every state the machine reaches, so the 64-bit index arithmetic of the probe does not wrap.
+
+Covered: `brz`/`brnz` (unlimited and limited = `emit_limit_check`), `noop`, `mov` without AND with bounds check,
+`copy/add/sub/mul` (lifted from `Props/C03.lean`), `inp`, `out`, prologue, both exits, relocation; `scan` has no
+selector arm (`compileX86 = none`). Not covered: nothing of the generated code; the hypotheses are listed at
+`prog_run`.
 -/
 import Hpbf.Proofs.C03FlowTop
 
@@ -455,6 +462,7 @@ end Hpbf
 #print axioms Hpbf.C03.flow_brz_brnz
 #print axioms Hpbf.C03.flow_limit_interrupted
 #print axioms Hpbf.C03.flow_mov
+#print axioms Hpbf.C03.flow_mov_safe
 #print axioms Hpbf.C03.flow_arith_instr
 #print axioms Hpbf.C03.flow_input
 #print axioms Hpbf.C03.flow_output
